@@ -497,6 +497,7 @@ def run(ctx: Ctx):
     ctx.proof_step(["C17"])
     if (COQ / "Props" / "C17_deep.v").exists():
         ctx.proof_step(["C17"], props_file="Props/C17_deep.v")
+    if (COQ / "Props" / "C17_deep2.v").exists(): ctx.proof_step(["C17"], props_file="Props/C17_deep2.v")  # noqa: E701
     ctx.notes += [
         "floats are idealised as exact rationals: the models run in Q with eps = 1e-9; status, objective, plan (ordered), iteration count and "
         "column pool are compared exactly, duals / LP value / root x within 1e-7; cases on which the model run with eps = 0, 1e-9, 1e-7 does not "
@@ -618,6 +619,7 @@ def run(ctx: Ctx):
             for lemma, (case, out) in certbad[:1]:
                 ctx.violation(f"certificate lemma {lemma}: the implementation says OPTIMAL but the proved dual certificate fails on the model's final duals",
                               {"case": {k: v for k, v in case.items() if k not in ("opt", "init_opt")}, "impl": out, "lemma": f"Cases/C17/{lemma}_*.v corr"}, no_input=True)
+    if (COQ / "C17" / "DeepBpTreeCorr.v").exists(): from harness.props import C17_deep; C17_deep.run_part(ctx)  # noqa: E701,E702  whole-tree model of solve_bp
 
 
 def replay(obj):
